@@ -36,7 +36,8 @@ def bc_dict(kind, name, side, n=None):
             assume(d["prim"][0] > 0)
         if kind in ("euler1d", "nozzle"):
             assume(z3.And(d["prim"][0] > 0, d["prim"][2] > 0))
-    for k in {"insub": ["ptot", "rttot"], "outsub": ["p"], "insup": ["ptot", "rttot", "p"]}.get(name, []):
+    from .C16 import PARAMS
+    for k in PARAMS.get(name, []):
         d[k] = z3.Real("bc%s_%s" % (side, k))
         assume(d[k] > 0)
     return d
@@ -238,5 +239,6 @@ def build(chk):
     _build1d(chk)
     build2d(chk)
     # the wall clause of the flux contract used for the slip-wall invariance (every registered flux, C16 wall-flux lemma)
-    from . import C16
+    from . import C16, C20
     chk.include(C16, r"^wall/", "uses:C16")
+    chk.include(C20, r".", "uses:C20")          # the mesh contract (faces, centres, dx() == vol() == face spacing)
